@@ -1,3 +1,63 @@
-import Econf.Parser
+import Econf.Lemmas.ParserLemmas
+
+/-!
+  C05 — a commented-out line is inert whatever it contains.
+
+  `C05_step_inert` is a one-step invariant for EVERY parser state (not only reachable ones) and
+  every raw line: if the first non-blank byte of the line is a comment character, then whatever
+  follows (further comment characters, delimiters, quotes, brackets, NUL bytes), the line
+  produces no key, no value, no section, no continuation of the previous value and no error.
+  `C05_lines_inert` lifts it to any block of such lines at any position of a file.
+-/
+
+set_option linter.unusedSimpArgs false
+
 namespace Econf
+
+/-- a line whose first non-blank character is a comment character -/
+def IsCommentLine (cfg : Cfg) (raw : Str) : Prop :=
+  ∃ c rest, lineBody raw = c :: rest ∧ cfg.comment.contains c = true
+
+/-- a line of blanks only (or an empty line) -/
+def IsBlankLine (raw : Str) : Prop := lineBody raw = []
+
+theorem C05_step_inert (cfg : Cfg) (st : PState) (raw : Str) (h : IsCommentLine cfg raw) :
+    ∃ st', parseLine cfg st raw = .ok st' ∧ st'.entries = st.entries ∧ st'.groups = st.groups ∧
+      st'.curGroup = st.curGroup ∧ st'.ca = st.ca ∧ st'.line = st.line + 1 ∧
+      ∃ text, lineBody raw = (lineBody raw).headD 0 :: text ∧ st'.cb = appendComment st.cb text := by
+  obtain ⟨c, rest, hb, hc⟩ := h
+  unfold parseLine
+  simp only [hb, hc, if_true]
+  exact ⟨{ st with line := st.line + 1, cb := appendComment st.cb rest }, rfl, rfl, rfl, rfl, rfl, rfl, rest, by simp, rfl⟩
+
+/-- a blank line changes nothing but the line counter -/
+theorem C05_blank_inert (cfg : Cfg) (st : PState) (raw : Str) (h : IsBlankLine raw) :
+    parseLine cfg st raw = .ok { st with line := st.line + 1 } := by
+  unfold IsBlankLine at h
+  unfold parseLine
+  simp only [h]
+
+/-- any block of comment lines, anywhere: entries, sections, current section and pending trailing
+    comment are what they were before the block; no error -/
+theorem C05_lines_inert (cfg : Cfg) (st : PState) (block : List Str) (h : ∀ l ∈ block, IsCommentLine cfg l) :
+    ∃ st', parseLines cfg st block = .ok st' ∧ st'.entries = st.entries ∧ st'.groups = st.groups ∧
+      st'.curGroup = st.curGroup ∧ st'.ca = st.ca ∧ st'.line = st.line + block.length := by
+  induction block generalizing st with
+  | nil => exact ⟨st, rfl, rfl, rfl, rfl, rfl, rfl⟩
+  | cons l ls ih =>
+    obtain ⟨st1, h1, he, hg, hcg, hca, hl, _⟩ := C05_step_inert cfg st l (h l List.mem_cons_self)
+    obtain ⟨st2, h2, he2, hg2, hcg2, hca2, hl2⟩ := ih st1 (fun x hx => h x (List.mem_cons_of_mem _ hx))
+    refine ⟨st2, ?_, ?_, ?_, ?_, ?_, ?_⟩
+    · simp only [parseLines, h1, h2]
+    · rw [he2, he]
+    · rw [hg2, hg]
+    · rw [hcg2, hcg]
+    · rw [hca2, hca]
+    · rw [hl2, hl]; simp only [List.length_cons]; omega
+
+/-- non-vacuity: the witnesses of fixed finding F01/F03 are comment lines, for the comment set `#;` -/
+example : IsCommentLine { delim := [0x3d], comment := [0x23, 0x3b] } [0x23, 0x6f, 0x6c, 0x64, 0x3d, 0x31, 0x20, 0x23, 0x20, 0x64, 0x0a] ∧
+    IsCommentLine { delim := [0x3d], comment := [0x23, 0x3b] } [0x20, 0x09, 0x3b, 0x5b, 0x78, 0x0a] :=
+  ⟨⟨0x23, [0x6f, 0x6c, 0x64, 0x3d, 0x31, 0x20, 0x23, 0x20, 0x64], by decide, by decide⟩, ⟨0x3b, [0x5b, 0x78], by decide, by decide⟩⟩
+
 end Econf
